@@ -15,8 +15,9 @@
 
     Commit ids are positions in the graph (creation order; the root commit is position 0).
     Trees are out of scope: a commit carries the flag [c_empty] (= Commit::is_empty as the
-    implementation computes it) and the model assumes that rebasing preserves it (true for
-    the file-disjoint histories the harness builds; tied by correspondence). *)
+    implementation computes it); the two tree-dependent facts of descendant rebasing (the
+    emptiness policy abandoned a commit; a rebased copy changed emptiness) are inputs recorded
+    from the implementation ([o_oracle]), every theorem quantifies over them. *)
 From Verif Require Import Base.Prelude Base.DagV Model.Merge.
 From Coq Require Import Arith.
 
@@ -564,7 +565,10 @@ Definition step (s : state) (o : op) : res state :=
       let c := getc (s_g s) old in
       let ps' := match ps with Some l => l | None => c_parents c end in
       if Nat.eqb old 0 then Panic
-      else Ok (fst (write_commit s (mk_commit ps' (c_change c) desc (c_empty c) [old]) (Some old)))
+      else match ps' with
+           | [] => Panic     (* CommitBuilder::set_parents asserts a non-empty list *)
+           | _ => Ok (fst (write_commit s (mk_commit ps' (c_change c) desc (c_empty c) [old]) (Some old)))
+           end
   | OAbandon old =>
       if Nat.eqb old 0 then Panic
       else Ok (set_pm s (pm_set old (Abandoned (c_parents (getc (s_g s) old))) (s_pm s)))
